@@ -410,7 +410,23 @@ func genM(r *vh.Rand) string {
 	type cl struct{ h, c, q1, q2 string; p int }
 	var clients []cl
 	for i := 0; i < r.Range(1, 3); i++ {
-		clients = append(clients, cl{r.Pick("a", "b", "c"), r.Pick("x", "y", "_", "-"), r.Pick("v", "w", "-", "_"), r.Pick("-", "z", "v"), r.Intn(5)})
+		c := cl{r.Pick("a", "b", "c"), r.Pick("x", "y", "_", "-"), r.Pick("v", "w", "-", "_"), r.Pick("-", "z", "v"), r.Intn(5)}
+		if i > 0 && r.Chance(1, 2) {
+			// a twin of the first client that differs in exactly ONE signed field: a signature that drops
+			// that field would make the two share a counter
+			c = clients[0]
+			switch r.Intn(4) {
+			case 0:
+				c.c = map[string]string{"x": "y", "y": "x", "_": "x", "-": "_"}[c.c]
+			case 1:
+				c.p = (c.p + 1 + r.Intn(2)) % 3
+			case 2:
+				c.q1 = map[string]string{"v": "w", "w": "v", "-": "v", "_": "w"}[c.q1]
+			default:
+				c.h = map[string]string{"a": "b", "b": "c", "c": "a"}[c.h]
+			}
+		}
+		clients = append(clients, c)
 	}
 	if r.Chance(1, 3) { // a client that cannot be signed by the header variants
 		clients = append(clients, cl{r.Pick("-", "_"), "x", "-", "-", 3})
@@ -426,7 +442,7 @@ func genM(r *vh.Rand) string {
 		sort.Ints(ts)
 		for _, x := range ts {
 			c := clients[r.Intn(len(clients))]
-			if r.Chance(2, 3) {
+			if r.Chance(1, 2) {
 				c = clients[0]
 			}
 			prod := 1
